@@ -3,7 +3,7 @@ import numbers
 from fractions import Fraction
 
 from .. import repo, strategies as S, tmcases as T
-from ..core import SubCheck, Fail, Discard, metric, target
+from ..core import SubCheck, Fail, Discard, metric, target, is_seq
 from ..oracles import tm_exact
 
 RULE = ("positions (lat in [-80, 84], lon in [-180, 180)) x ellipsoid (4 shipped + random a, 1/f in [150, 400]) x "
@@ -34,7 +34,7 @@ def check_position(case):
     cv = repo.mod("geodepy.convert")
     lat_o, lon_o, lat, lon = _position(case)
     got = T.call_geo2grid(cv, case, lat_o, lon_o)
-    if not (isinstance(got, tuple) and len(got) == 6):
+    if not is_seq(got, 6):
         raise Fail("geo2grid did not return a 6-tuple", observed=repr(got))
     hemi, zone, east, north, psf, conv = got
     fe, fn, k0, zw, cm1, kind = S.projection_params(case["prj"])
@@ -88,9 +88,11 @@ def check_position(case):
     # angle objects give the same result as their decimal values
     if case["kind"] != "float":
         plain = T.call_geo2grid(cv, case, lat, lon)
-        if tuple(plain) != tuple(got):
+        # (hemisphere and zone identical; coordinates within one unit of their 0.1 mm resolution: a rounding-level difference
+        # between the two routes may fall on either side of a rounding limit.  Scale factor and convergence are C10's subject.)
+        if (plain[0], plain[1]) != (got[0], got[1]) or abs(plain[2] - got[2]) > 1.0001e-4 or abs(plain[3] - got[3]) > 1.0001e-4:
             raise Fail("geo2grid with angle objects differs from the call with their decimal-degree values",
-                       expected=plain, observed=got)
+                       expected=list(plain), observed=list(got))
 
 
 def _nt(case):
